@@ -170,3 +170,6 @@ var QueryCalls int
 //@ ensures[errkind] gqlerrors.nonvacuous(err)
 //@ modifies-assumed fresh, global(LastStatus), q.client
 //@ end
+
+//@ commute (*UploadMap).extract loop 0: assumed: each entry replaces its own value (key k of this map) and appends to the upload list (bag); the numbering of multipart parts follows that list consistently within one request
+//@ commute extractFiles loop 0: assumed: as (*UploadMap).extract - per-variable footprint plus bag accumulation of uploads
